@@ -102,8 +102,11 @@ def anon(s): return ('anon', s)
 def cha(key, n): return ('arr', ('sc', key), n)
 
 
+MEMBER_NAMES = ["ab", "a", "abc", "b", "ba", "c", "cab", "ca", "d", "da"] + list("efghijklmnopqrstuvwxyz")
+
+
 def instantiate(shape, rot):
-    """Fill slots in preorder from the rotations, name members a,b,c.. (unique in the whole type)."""
+    """Fill slots in preorder from the rotations, name members from MEMBER_NAMES (unique in the whole type)."""
     cnt = {'s': 0, 'b': 0, 'n': 0, 'w': 0}
 
     def go(s):
@@ -128,7 +131,9 @@ def instantiate(shape, rot):
             if m[0] == 'anon':
                 ms.append((None, go(m[1])))
             else:
-                name = "abcdefghijklmnopqrstuvwxyz"[cnt['n']]
+                # member names of one type are prefixes / extensions of each other in both declaration orders (a designator
+                # names exactly one member: `.a` is not `.ab`)
+                name = MEMBER_NAMES[cnt['n']]
                 cnt['n'] += 1
                 ms.append((name, go(m)))
         return (k, tuple(ms)) + tuple(s[2:3])
